@@ -319,6 +319,13 @@ pub fn run_local(tier: Tier) -> Stats {
 
 pub fn run(tier: Tier) -> i32 {
     let mut report = Report::new("C08", tier, "model_checking");
+    let cluster = crate::c08_cluster::run(tier);
+    let cluster_states = cluster.get("states");
+    let cluster_transitions = cluster.get("transitions");
+    let cluster_closings = cluster.get("closings");
+    let cluster_purging = cluster.get("closings_where_a_purge_removed_something");
+    let cluster_cut = cluster.get("paths_cut_at_event_bound");
+    cluster.flush_into(&mut report);
     let local = run_local(tier);
     let removed = local.get("purges_that_removed_something");
     let probes = local.get("probes");
@@ -328,15 +335,23 @@ pub fn run(tier: Tier) -> i32 {
     let sequences = local.get("sequences");
     local.flush_into(&mut report);
 
-    report.cover("states", states);
-    report.cover("transitions", transitions);
+    report.cover("states", states + cluster_states);
+    report.cover("transitions", transitions + cluster_transitions);
     report.cover("traces_validated_against_impl", sequences);
-    report.cover("evaluations", sequences);
-    report.cover("distinct_nontrivial", states);
+    report.cover("evaluations", sequences + cluster_closings);
+    report.cover("distinct_nontrivial", states + cluster_states);
+    report.cover("cluster_model_states", cluster_states);
+    report.cover("cluster_model_closings_compared_with_twin", cluster_closings);
+    report.cover("cluster_model_paths_cut_at_event_bound", cluster_cut);
+    report.guard_nonzero("guard_cluster_closings_where_a_purge_removed_something", cluster_purging);
     report.cover(
         "rule",
         "local part: every timely delivery sequence over the 10-operation pool, both sources, up to 2 purge events \
-         anywhere; in every reached state a purge is evaluated on a copy and stale probe operations are replayed",
+         anywhere; in every reached state a purge is evaluated on a copy and stale probe operations are replayed. \
+         cluster part: depth-first search (deduplicated per shard by the full model state) over issue / direct delivery \
+         (with a duplicate) / repair (both batch orders) / purge / 20-minute time advance on 2-3 real OrSWotSet replicas \
+         with clock skew, timeliness enforced by the explorer; every state is compared with its never-purging twin and \
+         also closed (pending deliveries + two full repair rounds) and compared with twin and LWW reference",
     );
     report.cover("exhaustive", true);
     report.guard_nonzero("guard_purges_that_removed_something", removed);
@@ -347,6 +362,9 @@ pub fn run(tier: Tier) -> i32 {
 }
 
 pub fn replay(case: &J) -> i32 {
+    if case.get("skew_minutes").is_some() {
+        return crate::c08_cluster::replay(case);
+    }
     let pool = pool();
     let mut set = Set2::default();
     let mut trail = Vec::new();
